@@ -119,6 +119,13 @@ Proof.
   - apply Hs1. apply co_refl.
 Qed.
 
+Lemma co_rereg v k c r s : mem c (sess s) = true -> ctl_only s (registry_rereg v k c r s).
+Proof.
+  intros Hc. unfold registry_rereg. destruct (keeps_shared v); [|apply co_register; exact Hc].
+  destruct (get c (reg s)); [|apply co_register; exact Hc].
+  eapply co_trans; [apply co_unregister|]. apply co_register. rewrite sess_unregister. exact Hc.
+Qed.
+
 Lemma co_update_auth v c x s : ctl_only s (update_auth v c x s).
 Proof.
   unfold update_auth. destruct (get c (reg s)) as [r|] eqn:E; [|apply co_refl].
@@ -220,7 +227,7 @@ Qed.
 
 Theorem wf2_step v k s o : WF2 s -> WF2 (fst (step v k s o)).
 Proof.
-  intros Hw. destruct o as [c|c kind x isCtl|c|c|c|c|x newc| |d|c pre|c x|c t|c]; cbn [step].
+  intros Hw. destruct o as [c|c kind x isCtl|c|c|c|c|x newc| |d|c pre|c x|c t|c|c pre]; cbn [step].
   - destruct ((0 <? maxConn k) && (maxConn k <=? N.of_nat (length (sess s)))); [exact Hw|].
     destruct (mem c (streams s)) eqn:Es; [exact Hw|]. destruct Hw as [W1 W2 W3 W4 W5 W6]. cbn [fst].
     assert (Hns : mem c (sess s) = false).
@@ -255,6 +262,9 @@ Proof.
     + apply nodup_set. exact W2.
     + intros c' H. apply get_set_some in H. destruct H as [->|H]; [rewrite Hse; exact Es|exact (W5 c' H)].
   - destruct (mem c (streams s)); [|exact Hw]. destruct Hw as [W1 W2 W3 W4 W5 W6]. split; assumption.
+  - destruct (mem c (sess s) && negb (mem c (closed s))) eqn:Eg; [|exact Hw].
+    cbn [fst]. apply andb_true_iff in Eg. destruct Eg as [Eg _].
+    apply (wf2_ctl_only s); [|exact Hw]. eapply co_trans; [apply co_rereg; exact Eg|apply co_bump].
 Qed.
 
 Lemma wf2_init : WF2 init.
@@ -337,7 +347,7 @@ Qed.
 
 Lemma dead_step v k s o c : Dead c s -> Dead c (fst (step v k s o)).
 Proof.
-  intros Hd. destruct o as [c1|c1 kind x isCtl|c1|c1|c1|c1|x newc| |d|c1 pre|c1 x|c1 t|c1]; cbn [step].
+  intros Hd. destruct o as [c1|c1 kind x isCtl|c1|c1|c1|c1|x newc| |d|c1 pre|c1 x|c1 t|c1|c1 pre]; cbn [step].
   - destruct ((0 <? maxConn k) && (maxConn k <=? N.of_nat (length (sess s)))); [exact Hd|].
     destruct (mem c1 (streams s)) eqn:Es; [exact Hd|]. destruct Hd as [D1 D2]. split; cbn [fst]; proj; cbn [mem].
     + rewrite D1. apply orb_true_r.
@@ -359,6 +369,9 @@ Proof.
   - destruct (mem c1 (sess s)); [|exact Hd]. cbn [fst].
     pose proof (dead_ctl_only c s _ (co_unregister c1 s) Hd) as [D1 D2]. split; assumption.
   - destruct (mem c1 (streams s)); exact Hd.
+  - destruct (mem c1 (sess s) && negb (mem c1 (closed s))) eqn:Eg; [|exact Hd].
+    cbn [fst]. apply andb_true_iff in Eg. destruct Eg as [Eg _].
+    apply (dead_ctl_only c s); [|exact Hd]. eapply co_trans; [apply co_rereg; exact Eg|apply co_bump].
 Qed.
 
 Lemma dead_run v k ops c : forall s, Dead c s -> Dead c (run v k s ops).
